@@ -615,6 +615,30 @@ def wallets(ctx):
                         st.evals += 1
                         if w.position_of(f, 10) is not None:
                             st.violation("C14/wallet-claims-foreign-script/descriptor", {"name": name}, w.position_of(f, 10), None)
+                    # the same two chains under branch LABELS that are not their ordinals (a mapping, in both insertion
+                    # orders), and three chains from a three-way multipath: a position is (label, index), never (ordinal, index)
+                    from btclib.descriptors.descriptors import multipath_descriptors as _mp, parse as _parse
+                    try:
+                        d0, d1 = [_parse(y, net) for y in _mp(text + "#" + ref_checksum(text))]
+                        labelled = [DescriptorWallet({3: d0, 7: d1}), DescriptorWallet({7: d1, 3: d0}), DescriptorWallet({1: d0, 2: d1})]
+                    except errs as e:
+                        st.violation("C14/wallet-refused/descriptor-mapping", {"name": name, "network": net}, repr(e)[:80], "wallet")
+                        labelled = []
+                    for w2 in labelled:
+                        labels = w2.branches
+                        for ordinal, lab in enumerate(labels):
+                            for i in (0, 3, 9):
+                                st.evals += 1
+                                st.nontrivial += 1
+                                case = {"wallet": "DescriptorWallet(mapping)", "name": name, "network": net, "labels": list(labels), "branch": lab, "index": i, "bindings": serving}
+                                exp = mk(ordinal, i)
+                                spk = w2.script_pub_key(lab, i)
+                                if spk.script != exp:
+                                    st.violation("C14/wallet-script-differs/descriptor-mapping-" + name, case, spk.script.hex()[:40], exp.hex()[:40])
+                                if w2.position_of(spk, 10) != (lab, i):
+                                    st.violation("C14/wallet-position_of-wrong/descriptor-mapping", case, w2.position_of(spk, 10), (lab, i))
+                                if w2.address(lab, i) != spk.address:
+                                    st.violation("C14/wallet-address-differs/descriptor-mapping", case, w2.address(lab, i), spk.address)
                 # --- ScriptWallet: a template with one key group
                 for stype, wrap in (("p2wsh", p2wsh), ("p2sh", p2sh), ("p2sh-p2wsh", lambda s: p2sh(p2wsh(s)))):
                     for order in ("none", "derived"):
